@@ -8,11 +8,12 @@ src=/tmp/seedwork/$id/out/$k
 name=$id-s$k
 dst=$(dirname "$0")/../seeded/$name
 dst=$(readlink -f "$dst" || echo "$dst")
-[ -f "$src/patch.diff" ] && [ -f "$src/demo.rs" ] || { echo "$name: missing patch.diff/demo.rs"; exit 2; }
+demo=demo.rs; [ -d "$src/demo" ] && demo=demo
+[ -f "$src/patch.diff" ] && [ -e "$src/$demo" ] || { echo "$name: missing patch.diff/demo"; exit 2; }
 mkdir -p "$dst"
-cp "$src/patch.diff" "$src/demo.rs" "$dst/"; [ -f "$src/notes.md" ] && cp "$src/notes.md" "$dst/"
+cp -r "$src/patch.diff" "$src/$demo" "$dst/"; rm -rf "$dst/demo/target"; [ -f "$src/notes.md" ] && cp "$src/notes.md" "$dst/"
 cd "$(dirname "$0")/.."
-tools/verify_seed.sh "$dst/patch.diff" "$dst/demo.rs" "$dst" > "$dst/verify.out" 2>&1; vr=$?
+tools/verify_seed.sh "$dst/patch.diff" "$dst/$demo" "$dst" > "$dst/verify.out" 2>&1; vr=$?
 rm -f "$dst/suite.log"
 echo "$name verify_result=$vr"
 python3 - "$dst" "$id" "$name" "$vr" <<'PY'
